@@ -462,7 +462,14 @@ func (x *ctx) newEnv(c caseT) *opsenv.Env {
 	if c.Macro != "" {
 		var rec, levels int
 		var head string
-		fmt.Sscanf(c.Macro, "fw:%d:%d:%s", &rec, &levels, &head)
+		where := "remote:"
+		if strings.HasPrefix(c.Macro, "fwc:") {
+			// the forged world sits in the on-disk cache (tiles and the lookup file) instead of the network
+			where = "cache:" + world.TheKeys().Name
+			fmt.Sscanf(c.Macro, "fwc:%d:%d:%s", &rec, &levels, &head)
+		} else {
+			fmt.Sscanf(c.Macro, "fw:%d:%d:%s", &rec, &levels, &head)
+		}
 		for L := 0; L < levels; L++ {
 			// every tile of that level that exists in the tree, full or partial, remote and cache
 			for n := int64(0); ; n++ {
@@ -474,7 +481,7 @@ func (x *ctx) newEnv(c caseT) *opsenv.Env {
 					if _, ok := world.TrueTile(x.A.Log, c.N, t); !ok {
 						continue
 					}
-					env.Plan["remote:/"+t.Path()] = opsenv.Fault{Kind: "fw-tile", Arg: rec}
+					env.Plan[where+"/"+t.Path()] = opsenv.Fault{Kind: "fw-tile", Arg: rec}
 				}
 			}
 		}
@@ -484,7 +491,10 @@ func (x *ctx) newEnv(c caseT) *opsenv.Env {
 			k = "fw-lookup-attacker-head"
 		}
 		lp := "/lookup/" + escaped(m)
-		env.Plan["remote:"+lp] = opsenv.Fault{Kind: k}
+		env.Plan[where+lp] = opsenv.Fault{Kind: k}
+		if where != "remote:" {
+			env.Plan["remote:"+lp] = opsenv.Fault{Kind: k}
+		}
 	}
 	return env
 }
@@ -650,6 +660,39 @@ func (x *ctx) explore(r *fw.Run, l *fw.Local, base caseT, maxDev int, reducedAll
 	}
 }
 
+// macroCache enumerates the forged worlds that sit in the on-disk cache, for histories of two lookups
+// on one client: the forged record is the second one looked up (the first lookup meets the forged tiles).
+func (x *ctx) macroCache(r *fw.Run, l *fw.Local, base caseT) {
+	if len(base.Lookups) != 2 || base.Lookups[1].Restart || base.Cache != "warm-full" {
+		return
+	}
+	recID := base.Lookups[1].Rec
+	maxL := 0
+	for int64(1)<<uint(base.H*(maxL+1)) <= int64(base.N) {
+		maxL++
+	}
+	for levels := 1; levels <= maxL+1; levels++ {
+		for _, head := range []string{"honest", "attacker"} {
+			c := base
+			c.Macro = fmt.Sprintf("fwc:%d:%d:%s", recID, levels, head)
+			l.States++
+			l.Execs++
+			l.Transitions++
+			o := x.exec(c)
+			if o.env.Changed > 0 {
+				l.Nontrivial++
+			}
+			if o.msg != "" {
+				x.confirm(c, o)
+				l.Outcomes["macro-cache:VIOLATION"]++
+				r.Violation(vkey(c, o.msg), o.msg, c)
+			} else {
+				l.Outcomes["macro-cache:"+o.class]++
+			}
+		}
+	}
+}
+
 // vkey is the canonical identity of a violation: S2-type results get a class key.
 func vkey(c caseT, msg string) string {
 	return c.key()
@@ -737,6 +780,7 @@ func Run(r *fw.Run) {
 		l := fw.NewLocal()
 		t0 := time.Now()
 		x.explore(r, l, c, 1, false)
+		x.macroCache(r, l, c)
 		if c.N <= dev2N && len(c.Lookups) == 1 {
 			x.explore(r, l, c, 2, true)
 		}
@@ -745,6 +789,42 @@ func Run(r *fw.Run) {
 		}
 		r.Merge(l)
 	})
+	// large honest logs (no fault): sizes at which tile numbers, tile counts per read and path encodings
+	// change shape; an honest server and honest cache must never cause a failure
+	{
+		type big struct{ n, h int }
+		bigs := []big{{33, 1}, {64, 1}, {257, 1}, {300, 2}, {1025, 2}, {2003, 1}, {600, 8}}
+		if r.Thorough() {
+			bigs = append(bigs, big{4100, 2}, big{2051, 1})
+		}
+		r.Bounds["large_honest_logs"] = fmt.Sprint(bigs)
+		fw.Parallel(len(bigs), func(i int) {
+			b := bigs[i]
+			x := newCtx(b.n)
+			l := fw.NewLocal()
+			defer r.Merge(l)
+			for _, s0 := range []int{-1, 1, b.n / 2, b.n} {
+				for _, cache := range []string{"cold", "warm-full"} {
+					for _, recs := range [][]int{{0}, {b.n - 1}, {b.n / 2, 1}, {1, b.n - 1}} {
+						c := caseT{N: b.n, H: b.h, S0: s0, Cache: cache}
+						for _, rec := range recs {
+							c.Lookups = append(c.Lookups, lookupT{Rec: rec})
+						}
+						l.States++
+						l.Execs++
+						l.Transitions++
+						o := x.exec(c)
+						if o.msg != "" {
+							r.Violation(vkey(c, o.msg), o.msg, c)
+						} else {
+							l.Nontrivial++
+							l.Outcomes["large-honest:"+o.class]++
+						}
+					}
+				}
+			}
+		})
+	}
 	r.Sample(caseT{N: 7, H: 2, S0: 4, Cache: "cold", Lookups: []lookupT{{Rec: 0}}, Plan: []planEntry{{"remote:/tile/2/0/000", opsenv.Fault{Kind: "flip", Arg: 0}}}})
 	r.Sample(caseT{N: 5, H: 1, S0: -1, Cache: "cold", Lookups: []lookupT{{Rec: 3, GoMod: true}}, Macro: "fw:3:2:honest"})
 }
